@@ -13,7 +13,7 @@ func init() {
 		Level: "other",
 		Run:   checkC10,
 		Explanation: "Promptness (three heartbeat intervals) is timing and is not decided. Decided, for all priorities and flags: (R1) every Update that is not the heartbeat refresh is reached only with AllowPriorityTakeover true in the own configuration, after a successful Get in the same activation, after that entry's value decoded into the payload type, under the STRICT comparison own priority > stored priority, and presents exactly that entry's revision; " +
-			"(R2) the takeover code is reachable from the follower's watch-event handling (the mechanism behind promptness; reachability only); (R3) validation rejects AllowPriorityTakeover with Priority <= 0 (C16).",
+			"(R2) the takeover code is reachable from the follower's watch-event handling (the mechanism behind promptness; reachability only); (R3) validation rejects AllowPriorityTakeover with Priority <= 0 (C16); (R4) an acquisition that did not set the claim is reported as a failure (C06-R5, shared); (R5) on a watch event the decision to attempt a takeover depends only on the event, the follower role and the priority comparison (must-guards and deciding conditions), so that a lost attempt is repeated on the incumbent's next heartbeat event.",
 		NotDecided: []string{"that a higher-priority instance becomes leader within three heartbeat intervals (timing)", "that leadership then stays with the highest-priority instance (schedule)"},
 		Assumptions: []string{"KeyValue.Update is revision-checked (C14)"},
 		Rules: map[string]string{
